@@ -12,7 +12,7 @@ import (
 
 // C09 — CSV text round-trips through the tokenizer for any table and configuration.
 
-var c09Fields = []string{"", "a", " ", "a b", ",", ";", "\t", "\"", "'", "\"\"", "\"a\"", "\n", "\r", "\r\n", "x\ny", "я", "яa", "é", "￾", "a\"b", "”", "→"}
+var c09Fields = []string{"", "a", " ", "a b", ",", ";", "\t", "\"", "'", "\"\"", "\"a\"", "\n", "\r", "\r\n", "x\ny", "я", "яa", "é", "￾", "a\"b", "”", "→", "\ufffd", "«"}
 var c09FieldsSmall = []string{"", "a", ",", "\"", "\n", "\r", "яa", "→"}
 
 type c09Cfg struct {
@@ -31,8 +31,8 @@ func (k c09Cfg) String() string {
 var c09Configs []c09Cfg
 
 func init() {
-	seps := [][]rune{{','}, {';', ','}, {'\t'}, {'→'}}
-	quotes := [][]rune{{'"'}, {'\'', '"'}, {'”'}}
+	seps := [][]rune{{','}, {';', ','}, {'\t'}, {'→'}, {0xa6}}
+	quotes := [][]rune{{'"'}, {'\'', '"'}, {'”'}, {0xab, 0xff}}
 	eols := []string{"\n", "\r", "\r\n", "\n\r"}
 	for _, s := range seps {
 		for _, q := range quotes {
@@ -217,7 +217,7 @@ func init() {
 		ID:    "C09",
 		Level: "model_checking",
 		Rule: "tables of 1..2 rows x 1..2 columns (thorough: also 3x2 over a reduced pool) with fields from a 22-string pool (empty, blanks, every separator and quote symbol, doubled quotes, LF, CR, CRLF, embedded line break, Latin-1, non-Latin, U+FFFE) x 144+ configurations (4 separator sets incl. TAB and U+2192, 3 quote sets incl. U+201D, 4 line endings, quote-when-needed / always-quote, every choice of the configured separator and quote used by the writer, fixed for the document or rotating field by field); " +
-			"oracle: reference writer, then TokenizeBuffer with string decoding, regrouped (Eol = row break, separator symbol = field break, Word/Quoted values concatenate) equals the table, and each line ending is exactly one Eol token; non-trivial = tables with more than one field",
+			"oracle: reference writer, then TokenizeBuffer with string decoding, regrouped (Eol = row break, separator symbol = field break, Word/Quoted values concatenate) equals the table, and each line ending is exactly one Eol token; plus tables of up to 257 (thorough 1000) rows or columns whose fields cycle through the pool from every offset; non-trivial = tables with more than one field",
 		Assume: []string{"characters above U+FFFE are outside the configured range and not used", "the document has no trailing line ending"},
 		Spaces: func(tier string) []fw.Space {
 			nc := int64(len(c09Configs))
@@ -239,11 +239,36 @@ func init() {
 						return fmt.Sprintf("table %s with %s", tableStr(c09Table(s.pool, s.rows, s.cols, i/nc)), c09Configs[i%nc])
 					}})
 			}
+			// pumped tables: r x c tables whose fields cycle through the pool starting at every offset
+			dims := [][2]int{{1, 3}, {1, 9}, {1, 65}, {1, 257}, {3, 1}, {9, 1}, {65, 1}, {257, 1}, {4, 4}, {17, 5}, {33, 33}}
+			if tier == "thorough" {
+				dims = append(dims, [2]int{1, 1000}, [2]int{1000, 1}, [2]int{100, 100})
+			}
+			nOff := int64(len(c09Fields))
+			sp = append(sp, fw.Space{Name: "pumped-tables", N: int64(len(dims)) * nOff * nc, Timeout: 300e9,
+				Run: func(c *fw.Ctx, i int64) {
+					d := dims[i/(nOff*nc)]
+					off := int(i / nc % nOff)
+					t := make([][]string, d[0])
+					k := off
+					for r := range t {
+						t[r] = make([]string, d[1])
+						for f := range t[r] {
+							t[r][f] = c09Fields[k%len(c09Fields)]
+							k += 1 + (r+f)%3
+						}
+					}
+					c09Run(c, t, int(i%nc))
+				},
+				Repr: func(i int64) string {
+					d := dims[i/(nOff*nc)]
+					return fmt.Sprintf("%dx%d table cycling through the field pool from offset %d with %s", d[0], d[1], i/nc%nOff, c09Configs[i%nc])
+				}})
 			return sp
 		},
 		Bounds: func(tier string) string {
 			if tier == "thorough" {
-				return fmt.Sprintf("all 1x1,1x2,2x1,2x2,1x3 tables over 22 fields and 3x2 tables over 8 fields x %d configurations", len(c09Configs))
+				return fmt.Sprintf("pumped tables up to 1000 fields per row / 1000 rows; all 1x1,1x2,2x1,2x2,1x3 tables over 22 fields and 3x2 tables over 8 fields x %d configurations", len(c09Configs))
 			}
 			return fmt.Sprintf("all 1x1,1x2,2x1 tables over 22 fields and 2x2 tables over 8 fields x %d configurations", len(c09Configs))
 		},
